@@ -1,11 +1,22 @@
 """Constants of the OMEN level / keyspace code (C11, C18), extracted by ast
-from the current /repo sources.  Fail closed: every comparison, loop header
-and recursive call of the modelled functions must have one of the shapes the
-Gallina models (OmenLevel.v, OmenKeyspace.v) transcribe; the two comparisons
-the property C18 depends on are exported as booleans, the rest must be exactly
-as modelled or extraction raises (the check then reports a broken tie)."""
+from the current /repo sources.  Fail closed.
+
+The four functions that harness/translate_omen_level.py translates to Gallina
+(find_omen_level, _rec_calc_keyspace, calc_omen_keyspace, OmenScorer.parse) are
+NOT shape-checked here any more: their tie to the source is the translation plus
+the equality proofs of OmenLevelGenProofs.v / OmenKeyspaceGenProofs.v, which hold
+for every behaviour-preserving way of writing them that the translator accepts
+and the proofs follow.  The two comparisons of calc_omen_keyspace that the model
+of C18 has as parameters (keyspace_ip_guard_strict, keyspace_len_skip_le) are
+read off the TRANSLATION of calc_omen_keyspace (where `x > 0` / `0 < x` and the
+names of locals are already normalised away); the defaults come from the def
+line.  The functions that are not translated (the guesser's loader, the way the
+scorer opens its files, the probability written to pcfg_omen_prob.txt) keep
+their checks; the last one is checked up to the naming of intermediate values."""
 import ast
+import copy
 import os
+import re
 
 import common
 
@@ -48,54 +59,120 @@ def _pick(what, got, options):
     raise ExtractError("%s: unexpected comparison %r (known: %r)" % (what, got, list(options)))
 
 
+class _Subst(ast.NodeTransformer):
+    def __init__(self, env, item):
+        self.env, self.item = env, item
+
+    def visit_Subscript(self, n):
+        if self.item and isinstance(n.value, ast.Name) and n.value.id == self.item and isinstance(n.slice, ast.Constant) \
+                and n.slice.value in (0, 1) and type(n.slice.value) is int:
+            return ast.Name(id="LEVEL" if n.slice.value == 0 else "KEYSPACE", ctx=ast.Load())
+        return self.generic_visit(n)
+
+    def visit_Name(self, n):
+        if isinstance(n.ctx, ast.Load) and n.id in self.env:
+            return copy.deepcopy(self.env[n.id])
+        return n
+
+
+def _check_prob_formula(fn):
+    loops = [n for n in ast.walk(fn) if isinstance(n, ast.For) and isinstance(n.iter, ast.Call)
+             and isinstance(n.iter.func, ast.Attribute) and n.iter.func.attr == "items" and not n.iter.args
+             and isinstance(n.iter.func.value, ast.Name) and n.iter.func.value.id == "omen_keyspace"]
+    if len(loops) != 1 or loops[0].orelse:
+        raise ExtractError("save_omen_rules_to_disk: expected one loop over omen_keyspace.items()")
+    loop = loops[0]
+    env, item = {}, None
+    t = loop.target
+    if isinstance(t, ast.Name):
+        item = t.id
+    elif isinstance(t, ast.Tuple) and len(t.elts) == 2 and all(isinstance(x, ast.Name) for x in t.elts):
+        env[t.elts[0].id] = ast.Name(id="LEVEL", ctx=ast.Load())
+        env[t.elts[1].id] = ast.Name(id="KEYSPACE", ctx=ast.Load())
+    else:
+        raise ExtractError("save_omen_rules_to_disk: unexpected loop target %s" % ast.unparse(t))
+    found = {"guard": 0, "store": 0}
+
+    def sub(e):
+        return ast.unparse(_Subst(env, item).visit(copy.deepcopy(e)))
+
+    def block(stmts, guarded):
+        for i, st in enumerate(stmts):
+            if isinstance(st, ast.Expr) and isinstance(st.value, ast.Constant):
+                continue
+            if isinstance(st, ast.Assign) and len(st.targets) == 1 and isinstance(st.targets[0], ast.Name):
+                if st.targets[0].id == item:
+                    raise ExtractError("save_omen_rules_to_disk: the loop variable is rebound")
+                env[st.targets[0].id] = _Subst(env, item).visit(copy.deepcopy(st.value))
+                continue
+            if isinstance(st, ast.If) and not st.orelse:
+                test = sub(st.test)
+                if test in ("KEYSPACE == 0", "0 == KEYSPACE") and len(st.body) == 1 and isinstance(st.body[0], ast.Continue) \
+                        and not guarded:
+                    found["guard"] += 1
+                    block(stmts[i + 1:], True)
+                    return
+                if test in ("KEYSPACE != 0", "0 != KEYSPACE", "not KEYSPACE == 0") and not guarded and i == len(stmts) - 1:
+                    found["guard"] += 1
+                    block(st.body, True)
+                    return
+                raise ExtractError("save_omen_rules_to_disk: unexpected condition `%s`" % test)
+            if isinstance(st, ast.Assign) and len(st.targets) == 1 and isinstance(st.targets[0], ast.Subscript) \
+                    and isinstance(st.targets[0].value, ast.Name) and st.targets[0].value.id == "pcfg_omen_prob":
+                key, val = sub(st.targets[0].slice), sub(st.value)
+                if not guarded or key != "LEVEL" or val != "omen_levels_count[LEVEL] / num_valid_passwords / KEYSPACE":
+                    raise ExtractError("save_omen_rules_to_disk: pcfg_omen_prob[%s] = %s%s is not the modelled "
+                                       "(omen_levels_count[level] / num_valid_passwords) / keyspace under keyspace != 0"
+                                       % (key, val, "" if guarded else " (unguarded)"))
+                found["store"] += 1
+                continue
+            raise ExtractError("save_omen_rules_to_disk: unexpected statement in the probability loop: %s"
+                               % ast.unparse(st).split("\n")[0])
+
+    block(list(loop.body), False)
+    if found != {"guard": 1, "store": 1}:
+        raise ExtractError("save_omen_rules_to_disk: probability loop not as modelled (%r)" % found)
+    stores = [n for n in ast.walk(fn) if isinstance(n, ast.Subscript) and isinstance(n.ctx, ast.Store)
+              and isinstance(n.value, ast.Name) and n.value.id == "pcfg_omen_prob"]
+    if len(stores) != 1:
+        raise ExtractError("save_omen_rules_to_disk: pcfg_omen_prob is stored into at %d places" % len(stores))
+
+
 def extract():
     C = {}
     src = lambda rel: ast.parse(open(os.path.join(common.REPO, rel), encoding="utf-8").read())
     ev = src("lib_trainer/omen/evaluate_password.py")
 
-    # find_omen_level
-    c, l, _ = _shape(_func(ev, "find_omen_level"))
-    _expect("find_omen_level comparisons", c,
-            ["pw_len < omen_trainer.min_length", "pw_len > omen_trainer.max_length", "end_pos <= pw_len"])
-    _expect("find_omen_level loops", l, ["end_pos <= pw_len"])
-
-    # _rec_calc_keyspace
-    c, l, k = _shape(_func(ev, "_rec_calc_keyspace"))
-    _expect("_rec_calc_keyspace comparisons", c,
-            ["'keyspace_cache' not in omen_trainer.grammar[ip]",
-             "length not in omen_trainer.grammar[ip]['keyspace_cache']",
-             "level in omen_trainer.grammar[ip]['keyspace_cache'][length]",
-             "length == 1", "letter_level[0] == level", "letter_level[0] <= level"])
-    _expect("_rec_calc_keyspace loops", l, ["omen_trainer.grammar[ip]['next_letter'].items()"] * 2)
-    _expect("_rec_calc_keyspace recursion", k,
-            ["_rec_calc_keyspace(omen_trainer, level - letter_level[0], length - 1, ip[1:] + last_letter)"])
-
-    # calc_omen_keyspace
+    # calc_omen_keyspace: the two comparisons the model is parameterised by, from its translation
+    # (harness/translate_omen_level.py: `a > b` is rendered as `(b <? a)`, locals keep no meaning)
     f = _func(ev, "calc_omen_keyspace")
-    c, l, k = _shape(f)
-    if len(c) != 4:
-        raise ExtractError("calc_omen_keyspace: %d comparisons, modelled 4: %r" % (len(c), c))
-    C["keyspace_ip_guard_strict"] = _pick("calc_omen_keyspace IP guard", c[0],
-                                          {"level_minus_ip > 0": True, "level_minus_ip >= 0": False})
-    C["keyspace_len_skip_le"] = _pick("calc_omen_keyspace length skip", c[1],
-                                      {"length <= omen_trainer.ngram": True, "length < omen_trainer.ngram": False})
-    _expect("calc_omen_keyspace length guard", c[2], "length_info[0] <= level_minus_ip")
-    _expect("calc_omen_keyspace cut-off", c[3], "keyspace[level] > max_keyspace")
-    _expect("calc_omen_keyspace loops", l,
-            ["range(1, max_level + 1)", "omen_trainer.grammar.items()", "enumerate(omen_trainer.ln_lookup)"])
-    _expect("calc_omen_keyspace call", k,
-            ["_rec_calc_keyspace(omen_trainer, level_minus_ip - length_info[0], length - omen_trainer.ngram + 1, ip)"])
+    import translate_omen_level as tol
+    try:
+        text = tol.render(tol.OUT_KEYSPACE)
+    except Exception as e:
+        raise ExtractError("calc_omen_keyspace / _rec_calc_keyspace cannot be translated: %s" % e)
+    body = text[text.index("Definition py_calc_omen_keyspace"):]
+    # `if level_minus_ip >= 0:` -> `if ((0%Z) <=? level_minus_ip)%Z then`,  `> 0` -> `<?`
+    ipg = re.findall(r"^\s*if \(\(0%Z\) (<=\?|<\?) \(?\w+\)?\)%Z then", body, re.M)
+    if len(ipg) != 1:
+        raise ExtractError("calc_omen_keyspace: expected exactly one guard `<level - ip_level> >= 0` / `> 0`, found %r" % (ipg,))
+    C["keyspace_ip_guard_strict"] = ipg[0] == "<?"
+    # `if length < omen_trainer.ngram: continue` -> `if (length <? (Z.of_nat (tt_ngram omen_trainer)))%Z then` + Continue
+    # (the n-gram size may have been given a local name first)
+    ngram_names = re.findall(r"let (\w+) := Z\.of_nat \(tt_ngram \w+\) in", body)
+    ngram_alt = "|".join([r"\(Z\.of_nat \(tt_ngram \w+\)\)"] + [re.escape(n) for n in ngram_names])
+    skip = re.findall(r"^\s*if \(\(?\w+\)? (<=\?|<\?) (?:%s)\)%%Z then[^\n]*\n\s*Ok \(Continue " % ngram_alt, body, re.M)
+    if len(skip) != 1:
+        raise ExtractError("calc_omen_keyspace: expected exactly one skip `if length < ngram: continue` / `<=`, found %r" % (skip,))
+    C["keyspace_len_skip_le"] = skip[0] == "<=?"
     d = [ast.literal_eval(a) for a in f.args.defaults]
     if len(d) != 2 or not all(isinstance(x, int) for x in d):
         raise ExtractError("calc_omen_keyspace defaults %r" % (d,))
     C["keyspace_default_max_level"] = d[0]
     C["keyspace_default_max_keyspace"] = [d[1]]      # rendered as list N (too large for nat)
 
-    # scorer
+    # scorer (OmenScorer.parse is translated; only the way _load_omen opens its files is read here)
     sc = src("lib_scorer/omen_scorer.py")
-    c, l, _ = _shape(_func(sc, "parse"))
-    _expect("OmenScorer.parse comparisons", c, ["pass_len < self.ngram", "pass_len > self.max_len", "end_pos <= pass_len"])
-    _expect("OmenScorer.parse loops", l, ["end_pos <= pass_len"])
 
     # guesser loader
     gi = src("lib_guesser/omen/input_file_io.py")
@@ -155,12 +232,8 @@ def extract():
         raise ExtractError("check_valid admits TAB")
     C["trainer_rejected_chars"] = rej
 
-    # probability written to pcfg_omen_prob.txt
-    fo = _func(src("lib_trainer/omen/omen_file_output.py"), "save_omen_rules_to_disk")
-    assigns = [ast.unparse(n) for n in ast.walk(fo) if isinstance(n, ast.Assign)]
-    for want in ["percentage_cracked = num_instances / num_valid_passwords",
-                 "pcfg_omen_prob[level] = percentage_cracked / keyspace",
-                 "num_instances = omen_levels_count[level]"]:
-        if want not in assigns:
-            raise ExtractError("save_omen_rules_to_disk: `%s` not found" % want)
+    # probability written to pcfg_omen_prob.txt: for every (level, keyspace) of omen_keyspace, skipping
+    # keyspace 0,  pcfg_omen_prob[level] = (omen_levels_count[level] / num_valid_passwords) / keyspace
+    # (checked up to the naming of intermediate values and the way the zero test is written)
+    _check_prob_formula(_func(src("lib_trainer/omen/omen_file_output.py"), "save_omen_rules_to_disk"))
     return C
